@@ -312,6 +312,27 @@ func TestC12Canonical(t *testing.T) {
 		if enc3, err := rlp.EncodeToBytes(&dec); err != nil || !bytes.Equal(enc3, enc1) {
 			t.Fatalf("re-encoding the decoded set gives %x (%v), want %x", enc3, err, enc1)
 		}
+		// decoding into an object that already holds another set (a reused variable, a struct field that is
+		// decoded again) replaces that set
+		reused := pos.NewBuilder()
+		for _, id := range absent {
+			if rapid.IntRange(0, 2).Draw(t, "reusedMember") == 0 {
+				reused.Set(idx.ValidatorID(id), pos.Weight(rapid.Uint32Range(1, 3).Draw(t, "reusedW")))
+			}
+		}
+		for _, e := range want {
+			if rapid.IntRange(0, 3).Draw(t, "reusedCommon") == 0 {
+				reused.Set(idx.ValidatorID(e.ID), pos.Weight(rapid.Uint32Range(1, 3).Draw(t, "reusedW")))
+			}
+		}
+		dst := reused.Build()
+		if err := rlp.DecodeBytes(enc1, dst); err != nil {
+			t.Fatalf("DecodeRLP(%x) into an object holding %v: %v", enc1, dst, err)
+		}
+		checkSet(t, L("decode(encode(%v)) into an object that held another set", v1), dst, want, absent)
+		if enc4, err := rlp.EncodeToBytes(dst); err != nil || !bytes.Equal(enc4, enc1) {
+			t.Fatalf("re-encoding the set decoded into a reused object gives %x (%v), want %x", enc4, err, enc1)
+		}
 		// decoding a serialised pair list in any order yields the canonical set of those pairs
 		encF, err := rlp.EncodeToBytes(l2)
 		if err != nil {
@@ -333,6 +354,9 @@ func TestC12Canonical(t *testing.T) {
 			t.Fatalf("encoding a struct holding the set: %v", err)
 		}
 		var decW wrap
+		if rapid.Bool().Draw(t, "wrapHoldsOldSet") {
+			decW.V = reused.Build()
+		}
 		if err := rlp.DecodeBytes(encW, &decW); err != nil || decW.A != 7 || !bytes.Equal(decW.B, []byte{1, 2}) || decW.V == nil {
 			t.Fatalf("decoding a struct holding the set %v: %v", v2, err)
 		}
